@@ -30,8 +30,9 @@ fn case_strategy(max_dec: usize) -> BoxedStrategy<C04Case> {
     (
         0u8..3,
         0u8..2,
-        prop_oneof![Just(0u16), 0u16..8, 0u16..1024],
-        prop::collection::vec(prop_oneof![1u16..4, 1u16..300], 0..4),
+        prop_oneof![Just(0u16), 0u16..8, 0u16..1024, Just(1024u16)],
+        // u16::MAX = "fill the stream completely" (a full ring is a position where rpos == wpos, too)
+        prop::collection::vec(prop_oneof![3 => 1u16..4, 3 => 1u16..300, 2 => Just(u16::MAX)], 0..4),
         prop_oneof![1u16..4, 1u16..40, 1u16..1024],
         prop_oneof![Just(0u16), 1u16..8, 1u16..1024],
         decisions_strategy(max_dec),
@@ -67,7 +68,10 @@ fn scenario_reader_waits(c: &C04Case, fails: Fails, gap: Arc<AtomicBool>) {
     let com2 = committed.clone();
     let writer = spawn("writer", move || {
         for n in commits {
-            let n = (n as usize).min(CAP);
+            let n = if n == u16::MAX { ws.free() } else { (n as usize).min(CAP) };
+            if n == 0 {
+                continue;
+            }
             let mut tries = 0;
             loop {
                 let mut wb = ws.write_buf().unwrap();
@@ -170,7 +174,9 @@ fn scenario_reader_waits(c: &C04Case, fails: Fails, gap: Arc<AtomicBool>) {
                     return;
                 }
             }
-            let take = if api == 1 { usize::MAX } else { consume };
+            // eof polling: mostly take everything, but sometimes leave the data where it is so
+            // that eof() is asked with a (possibly completely) full stream
+            let take = if api == 1 && consume != 0 { usize::MAX } else { consume };
             if take > 0 && !check_and_take(&mut consumed, take) {
                 return;
             }
